@@ -1156,6 +1156,9 @@ def _run_path(it, func_node, body, conds):
                             M = it.aff(kw.value, env)
                     if M is None and len(v.args) == 2:
                         M = it.aff(v.args[1], env)
+                    if M is None and not v.args and not v.keywords:
+                        env[tg.id] = ('mq',)            # an unbounded queue: only the candidates idiom (_monoqueue) reads it
+                        continue
                     if M is None:
                         raise Unknown('deque without maxlen')
                     fill = None
@@ -1388,6 +1391,10 @@ def _outer_loop(it, st, env):
     e2['#facts'] = [t, n - Aff.const(1) - t]
     out = None
     result = None
+    if any(isinstance(w_, ast.While) for w_ in ast.walk(st)) and any(v_ == ('mq',) or v_ == ('build',) for v_ in env.values() if isinstance(v_, tuple)):
+        if direction < 0 or elem_of is not None:
+            raise Unknown('queue of candidates in a backward / element loop')
+        return _monoqueue(it, st, env, e2, t)
     for s in st.body:
         # running reduction carried by the loop:  acc = max(x_t, acc)  with acc a constant before the loop (ascending loops only)
         if isinstance(s, ast.Assign) and len(s.targets) == 1 and isinstance(s.targets[0], ast.Name) and isinstance(s.value, ast.Call) \
@@ -1442,6 +1449,301 @@ def _outer_loop(it, st, env):
     if out is None:
         raise Unknown('sample loop emits nothing')
     return result, out
+
+
+# ===================================================================================== the queue of candidates (sliding extremum in one pass)
+def _monoqueue(it, st, env, e2, t):
+    """for j in range(len(X)):                                       # forward over all samples, t = the iteration
+           [if G1:]  while Q and <back of Q> CMP X[k]: Q.pop()       # candidates that X[k] dominates can never be the extremum again
+                     Q.append(X[k] | k | (k, X[k]))                  # k = j - c: consecutive positions, the first one is 0
+           [if G2 / while ..:]  Q.popleft()  when the head left      # by position (`Q[0] <= E`) or by value (`Q[0] == X[L]`, needs a strict pop test)
+           out.append(<head of Q> [if Q else FILL])
+    Invariant (hand lemma, the classical one): after iteration t the queue holds, oldest first, exactly the positions p in [lo(t), k(t)] that no
+    later position in that range dominates (ties: the later one with `<=`, both with `<`); its head is the extremum of X over [lo(t), k(t)].
+    What is decided here, by linear arithmetic over the code's own guards: k advances by one per iteration from 0; the eviction test is applied in
+    every iteration in which a position can leave, and lets exactly the positions <= E(t) go; reads of the head are safe.  -> (result list, term)"""
+    n = Aff.sym('n')
+    one = Aff.const(1)
+    base_fx = list(e2.get('#facts', ()))
+    jname = st.target.id
+    # ---- flatten `if G:` blocks (no else) into guarded statements
+    flat = []
+
+    def is_evict_stmt(s_):
+        if not (isinstance(s_, (ast.If, ast.While)) and not s_.orelse and len(s_.body) == 1 and isinstance(s_.body[0], ast.Expr) and isinstance(s_.body[0].value, ast.Call)
+                and isinstance(s_.body[0].value.func, ast.Attribute)):
+            return False
+        c_ = s_.body[0].value
+        return c_.func.attr == 'popleft' or (c_.func.attr == 'pop' and len(c_.args) == 1 and ast.unparse(c_.args[0]) == '0')
+
+    def walk(stmts, guards):
+        for s_ in stmts:
+            if isinstance(s_, ast.If) and not s_.orelse and not is_evict_stmt(s_):
+                walk(s_.body, guards + [s_.test])
+            else:
+                flat.append((guards, s_))
+    walk(st.body, [])
+
+    def qname_of(e):
+        return ast.unparse(e)
+
+    def is_empty_guard(e, q):
+        src = ast.unparse(e).replace(' ', '')
+        return src in (q, 'len(%s)>0' % q, 'len(%s)!=0' % q, 'len(%s)>=1' % q, 'bool(%s)' % q)
+
+    def split_conj(e):
+        if isinstance(e, ast.BoolOp) and isinstance(e.op, ast.And):
+            out_ = []
+            for v in e.values:
+                out_ += split_conj(v)
+            return out_
+        return [e]
+
+    def guard_facts(tests, truth=True):
+        fx = []
+        for g in tests:
+            fx += _cond_facts(it, g, truth, e2)
+        return fx
+
+    Q = None
+    mode = None          # 'value' | 'index' | ('pair', idx position, value position)
+    op = None
+    strict = None
+    src = None
+    k = None             # position pushed in iteration t
+    push_guard = None
+    pushed = False
+    lo_excl = None       # every position <= lo_excl has left the queue after iteration t
+    evict_seen = False
+    out = None
+    result = None
+    line = st.lineno
+
+    def head_value_expr(e, q):
+        """does e read the value of the head of q?"""
+        srcs = ast.unparse(e).replace(' ', '')
+        if mode == 'value':
+            return srcs == '%s[0]' % q
+        if mode == 'index':
+            return isinstance(e, ast.Subscript) and isinstance(e.value, ast.Name) and e2.get(e.value.id) is src and ast.unparse(e.slice).replace(' ', '') == '%s[0]' % q
+        if isinstance(mode, tuple):
+            return srcs == '%s[0][%d]' % (q, mode[2])
+        return False
+
+    for guards, s_ in flat:
+        # ---------------------------------------------------------------- pop dominated candidates
+        if isinstance(s_, ast.While) and not is_evict_stmt(s_):
+            conj = split_conj(s_.test)
+            body = [x for x in s_.body]
+            if not (len(body) == 1 and isinstance(body[0], ast.Expr) and isinstance(body[0].value, ast.Call) and isinstance(body[0].value.func, ast.Attribute)):
+                raise Unknown('while loop in the sample loop: %s' % ast.unparse(s_.test)[:40])
+            call = body[0].value
+            q = qname_of(call.func.value)
+            if call.func.attr == 'pop' and not call.args:
+                if Q not in (None, q) or not isinstance(env.get(q), tuple) or env.get(q)[0] not in ('mq', 'build'):
+                    raise Unknown('queue %s' % q)
+                Q = q
+                rest = [c for c in conj if not is_empty_guard(c, q)]
+                if len(rest) != 1 or len(rest) == len(conj):
+                    raise Unknown('pop loop of %s needs `%s and <back> <cmp> <new sample>`' % (q, q))
+                c = rest[0]
+                if not (isinstance(c, ast.Compare) and len(c.ops) == 1 and isinstance(c.ops[0], (ast.Lt, ast.LtE, ast.Gt, ast.GtE))):
+                    raise Unknown('pop test %s' % ast.unparse(c)[:40])
+                l, r = c.left, c.comparators[0]
+                cop = type(c.ops[0])
+                backs = {'%s[-1]' % q: 'value', '%s[len(%s)-1]' % (q, q): 'value'}
+                ls, rs = ast.unparse(l).replace(' ', ''), ast.unparse(r).replace(' ', '')
+
+                def back_kind(e, es):
+                    if es in backs:
+                        return 'value'
+                    if isinstance(e, ast.Subscript) and isinstance(e.value, ast.Name) and isinstance(e2.get(e.value.id), Seq) and ast.unparse(e.slice).replace(' ', '') in backs:
+                        return ('index', e.value.id)
+                    if isinstance(e, ast.Subscript) and isinstance(e.slice, ast.Constant) and ast.unparse(e.value).replace(' ', '') in backs and e.slice.value in (0, 1):
+                        return ('pair', e.slice.value)
+                    return None
+                bk = back_kind(l, ls)
+                new = r
+                if bk is None:
+                    bk = back_kind(r, rs)
+                    new = l
+                    cop = {ast.Lt: ast.Gt, ast.LtE: ast.GtE, ast.Gt: ast.Lt, ast.GtE: ast.LtE}[cop]
+                if bk is None:
+                    raise Unknown('pop test %s does not look at the back of %s' % (ast.unparse(c)[:40], q))
+                # back CMP new: back smaller -> the head is the maximum
+                op = 'max' if cop in (ast.Lt, ast.LtE) else 'min'
+                strict = cop in (ast.Lt, ast.Gt)
+                if not (isinstance(new, ast.Subscript) and isinstance(new.value, ast.Name) and isinstance(e2.get(new.value.id), Seq)):
+                    raise Unknown('the new candidate `%s` is not a sample of an operand' % ast.unparse(new)[:30])
+                src = e2[new.value.id]
+                if bk == 'value':
+                    mode = 'value'
+                elif bk[0] == 'index':
+                    if e2[bk[1]] is not src:
+                        raise Unknown('candidates index %s, the new sample comes from %s' % (bk[1], new.value.id))
+                    mode = 'index'
+                else:
+                    mode = ('pair', 1 - bk[1], bk[1])
+                gfx = guard_facts(guards)
+                k = it.aff(new.slice, e2)
+                if k.coeff('t') != 1:
+                    raise Unknown('the pushed position %r does not advance by one per iteration' % k)
+                # the guard lets exactly the positions >= 0 in
+                it.require(k, 'the candidate pushed in an iteration is a sample of the trace (position >= 0)', s_.lineno, base_fx + gfx)
+                it.require(n - one - k, 'the candidate pushed in an iteration is a sample of the trace (position < len)', s_.lineno, base_fx + gfx)
+                for g in guards:
+                    for alt in _dnf(g, False):
+                        nfx = []
+                        for (tst, tr) in alt:
+                            nfx += _cond_facts(it, tst, tr, e2)
+                        if not _infeasible(it.facts + base_fx + nfx):
+                            it.require(-k - one, 'an iteration that pushes no candidate has none to push (its position lies before the trace)', s_.lineno, base_fx + nfx)
+                push_guard = list(guards)
+                continue
+            raise Unknown('while loop %s' % ast.unparse(s_.test)[:40])
+        # ---------------------------------------------------------------- push
+        if isinstance(s_, ast.Expr) and isinstance(s_.value, ast.Call) and isinstance(s_.value.func, ast.Attribute) and s_.value.func.attr == 'append' \
+                and Q is not None and qname_of(s_.value.func.value) == Q:
+            if push_guard is None or [ast.dump(g) for g in guards] != [ast.dump(g) for g in push_guard] or pushed:
+                raise Unknown('push into %s is not paired with the pop loop' % Q)
+            a0 = s_.value.args[0]
+            a0s = ast.unparse(a0).replace(' ', '')
+            want_val = lambda e: isinstance(e, ast.Subscript) and isinstance(e.value, ast.Name) and e2.get(e.value.id) is src and it.aff(e.slice, e2) == k
+            want_idx = lambda e: _try_aff(it, e, e2) == k
+            okp = False
+            if mode == 'value':
+                okp = want_val(a0)
+            elif mode == 'index':
+                okp = want_idx(a0)
+            elif isinstance(mode, tuple) and isinstance(a0, (ast.Tuple, ast.List)) and len(a0.elts) == 2:
+                okp = want_idx(a0.elts[mode[1]]) and want_val(a0.elts[mode[2]])
+            if not okp:
+                raise Unknown('what is pushed (%s) is not the candidate the pop loop compared' % a0s[:30])
+            pushed = True
+            continue
+        # ---------------------------------------------------------------- the head leaves
+        is_evict = None
+        if isinstance(s_, (ast.If, ast.While)) and not s_.orelse and len(s_.body) == 1 and isinstance(s_.body[0], ast.Expr) and isinstance(s_.body[0].value, ast.Call) \
+                and isinstance(s_.body[0].value.func, ast.Attribute):
+            c_ = s_.body[0].value
+            if c_.func.attr == 'popleft' or (c_.func.attr == 'pop' and len(c_.args) == 1 and ast.unparse(c_.args[0]) == '0'):
+                is_evict = qname_of(c_.func.value)
+        if is_evict is not None:
+            if Q is None or is_evict != Q or evict_seen:
+                raise Unknown('eviction from %s before the candidates idiom was recognised' % is_evict)
+            evict_seen = True
+            conj = split_conj(s_.test)
+            has_empty_guard = any(is_empty_guard(c, Q) for c in conj)
+            rest = [c for c in conj if not is_empty_guard(c, Q)]
+            heads = [c for c in rest if '%s[0]' % Q in ast.unparse(c).replace(' ', '')]
+            aff_guards = list(guards) + [c for c in rest if c not in heads]
+            if len(heads) != 1 or not (isinstance(heads[0], ast.Compare) and len(heads[0].ops) == 1):
+                raise Unknown('eviction test %s' % ast.unparse(s_.test)[:50])
+            h = heads[0]
+            l, r = h.left, h.comparators[0]
+            hop = type(h.ops[0])
+            ls = ast.unparse(l).replace(' ', '')
+            head_forms = {'value': '%s[0]' % Q, 'index': '%s[0]' % Q}
+            gfx = guard_facts(aff_guards)
+            # the eviction must be tried in every iteration in which a position can have left
+            def untested(E_):
+                for g in aff_guards:
+                    for alt in _dnf(g, False):
+                        nfx = []
+                        for (tst, tr) in alt:
+                            nfx += _cond_facts(it, tst, tr, e2)
+                        if not _infeasible(it.facts + base_fx + nfx):
+                            it.require(-E_ - one, 'an iteration that does not test the head of the queue has no position that left the window', s_.lineno, base_fx + nfx)
+            if mode == 'value':
+                # Q[0] == X[L]
+                if not (hop is ast.Eq and ls == '%s[0]' % Q and isinstance(r, ast.Subscript) and isinstance(r.value, ast.Name) and e2.get(r.value.id) is src):
+                    raise Unknown('a queue of values is evicted by `%s[0] == <the sample that leaves>`; got %s' % (Q, ast.unparse(h)[:40]))
+                L = it.aff(r.slice, e2)
+                if L.coeff('t') != 1:
+                    raise Unknown('the leaving position %r does not advance by one per iteration' % L)
+                it.require(L, 'the sample that leaves the window is a sample of the trace (position >= 0)', s_.lineno, base_fx + gfx)
+                it.require(k - L - (Aff.const(0) if pushed else one), 'the sample that leaves the window was pushed before it is looked for', s_.lineno, base_fx + gfx)
+                if not strict:
+                    it.obligations.append(('equal candidates are kept (strict pop test) when the head is recognised by value', False, s_.lineno))
+                untested(L)
+                lo_excl = L
+            else:
+                idx_head = '%s[0]' % Q if mode == 'index' else '%s[0][%d]' % (Q, mode[1])
+                if ls != idx_head:
+                    # E >= Q[0]  ->  Q[0] <= E
+                    if ast.unparse(r).replace(' ', '') != idx_head:
+                        raise Unknown('eviction test %s does not look at the position of the head' % ast.unparse(h)[:40])
+                    l, r = r, l
+                    hop = {ast.Lt: ast.Gt, ast.LtE: ast.GtE, ast.Gt: ast.Lt, ast.GtE: ast.LtE, ast.Eq: ast.Eq}.get(hop)
+                E = it.aff(r, e2)
+                if hop is ast.Lt:
+                    E = E - one
+                elif hop is ast.Eq:
+                    if not isinstance(s_, ast.If):
+                        raise Unknown('`while head == E`')
+                elif hop is not ast.LtE:
+                    raise Unknown('eviction test %s' % ast.unparse(h)[:40])
+                if isinstance(s_, ast.If) or hop is ast.Eq:
+                    # one position per iteration can leave: enough iff the bound moves by one per iteration
+                    if E.coeff('t') != 1:
+                        raise Unknown('`if` eviction with a bound %r that does not advance by one per iteration' % E)
+                elif E.coeff('t') not in (0, 1):
+                    raise Unknown('eviction bound %r' % E)
+                untested(E)
+                lo_excl = E
+            if not has_empty_guard:
+                if not pushed:
+                    it.obligations.append(('the head of the queue is read only when the queue is not empty (`%s and ...` or after the push of this iteration)' % Q, False, s_.lineno))
+                else:
+                    # pushed in this iteration under push_guard: the eviction guards must imply it
+                    it.require(k, 'the head of the queue is read only in iterations that pushed a candidate', s_.lineno, base_fx + gfx)
+            continue
+        # ---------------------------------------------------------------- the output of the iteration
+        if isinstance(s_, ast.Expr) and isinstance(s_.value, ast.Call) and isinstance(s_.value.func, ast.Attribute) and s_.value.func.attr == 'append' and not guards:
+            tgt = ast.unparse(s_.value.func.value)
+            if env.get(tgt) != ('build',) or tgt == Q:
+                raise Unknown('append to %s' % tgt)
+            if Q is None or not pushed:
+                raise Unknown('output before the candidates idiom was recognised')
+            a0 = s_.value.args[0]
+            fill = None
+            if isinstance(a0, ast.IfExp):
+                tst, x, y = a0.test, a0.body, a0.orelse
+                if isinstance(tst, ast.UnaryOp) and isinstance(tst.op, ast.Not):
+                    tst, x, y = tst.operand, y, x
+                if not is_empty_guard(tst, Q):
+                    raise Unknown('output %s' % ast.unparse(a0)[:40])
+                fill = O.const_of(y)
+                if fill is None:
+                    raise Unknown('value for an empty queue %s' % ast.unparse(y)[:30])
+                a0 = x
+            if not head_value_expr(a0, Q):
+                raise Unknown('the output %s is not the head of the queue' % ast.unparse(a0)[:40])
+            lo = (lo_excl + one) if lo_excl is not None else Aff.const(0)
+            if fill is None:
+                it.require(k, 'the head of the queue is read only when a candidate has been pushed', s_.lineno, base_fx)
+                it.require(k - lo, 'the head of the queue is read only when the window is not empty', s_.lineno, base_fx)
+            elif ('c', fill[1]) != NEUTRAL[op]:
+                if not entails(it.facts + base_fx, k):
+                    if entails(it.facts + base_fx, -k - one):
+                        out, result = ('c', fill[1]), tgt
+                        continue
+                    raise NeedSplit(k)
+            v = it.newvar('i')
+            out = ('red', op, v, lo, k, _with_fill(src.elem(Aff.sym(v)), low=NEUTRAL[op]))
+            result = tgt
+            continue
+        raise Unknown('statement in the candidates loop: %s' % ast.unparse(s_)[:50])
+    if out is None:
+        raise Unknown('candidates loop emits nothing')
+    return result, out
+
+
+def _try_aff(it, e, env):
+    try:
+        return it.aff(e, env)
+    except Unknown:
+        return None
 
 
 def summarize_online(ix, cls, facts=()):
